@@ -63,6 +63,8 @@ def one_case(case):
     try:
         hs = [rf.value.node_history(x) for x in labels]
         info["changes"] = sum(len(h[0]) - 1 for h in hs)
+        fin = [float(x) for h in hs for x in h[0] if x < 1e17]
+        info["simtime"] = max(fin) - case["tmin"] if fin else 0.0
         info["digest"] = hashlib.sha256(repr(hs).encode()).hexdigest()[:16]
     except Exception:
         pass
@@ -79,7 +81,7 @@ def run_one(family, rng, idx, tier):
         stats["modes_consumed_different_draws"] = 1
     if info["status"] not in ("done", "exc"):
         return {"skipped": "not comparable: %s" % info["status"], "stats": stats}
-    out = {"viol": v, "stats": stats}
+    out = {"viol": v, "stats": stats, "simtime": min(1000.0, max(0.0, info.get("simtime", 0.0)))}
     if info["changes"] and info["digest"]:
         out["keys"] = ["%s|%s" % (family, info["digest"])]
     if idx < 1:
